@@ -123,7 +123,8 @@ Inductive frame :=
 | KYieldStar (target : option pat) (decl : option decl_kind) (iter next : value)
 | KAwaitResume (target : option pat) (decl : option decl_kind)
 | KReturnValue                                        (* return await e *)
-| KExprValue.                                         (* expression-bodied arrow: the value becomes the return value *)
+| KExprValue                                          (* expression-bodied arrow: the value becomes the return value *)
+| KAsyncDone (pid : N).                               (* bottom frame of an async function body: settles its result promise *)
 
 Inductive resume := RNext (v : value) | RThrowIn (v : value) | RReturnIn (v : value).
 
